@@ -609,6 +609,13 @@ func propC08(c *Ctx, r *Report) {
 			continue
 		}
 		key := fmt.Sprintf("%s %s", fname(st.Fn), st.Table)
+		if isNewHelper(st.Fn) {
+			// a statement moved into a stage of one reference function is named after that function (the key of a
+			// recorded finding must not depend on how the function is cut into stages)
+			if on := c.ownerNames(st.Fn); len(on) == 1 {
+				key = fmt.Sprintf("%s %s", on[0], st.Table)
+			}
+		}
 		cons := key
 		if n := ordn.next(key); n > 1 {
 			cons = fmt.Sprintf("%s %s", key, ord(n))
